@@ -44,12 +44,12 @@ mutual
 def printT : TExp → String
   | .atom s => s
   | .qname pkg ann simple =>
-    let p := if pkg == ["java", "lang"] || pkg.isEmpty then "" else ".".intercalate pkg ++ "."
+    let p := if pkg == ["java", "lang"] || pkg.isEmpty then "" else joinS "." pkg ++ "."
     match ann with
     | some a => p ++ a ++ " " ++ simple
     | none => p ++ simple
-  | .app h args => if args.isEmpty then printT h else printT h ++ "<" ++ ", ".intercalate (printTs args) ++ ">"
-  | .fn r ps => "std::function<" ++ printT r ++ "(" ++ ",".intercalate (printTs ps) ++ ")>"
+  | .app h args => if args.isEmpty then printT h else printT h ++ "<" ++ joinS ", " (printTs args) ++ ">"
+  | .fn r ps => "std::function<" ++ printT r ++ "(" ++ joinS "," (printTs ps) ++ ")>"
   | .constRef e => "const " ++ printT e ++ " &"
   | .arr e => printT e ++ "[]"
   | .ptr e => printT e ++ " *"
@@ -57,7 +57,7 @@ def printT : TExp → String
   | .suffix e s => printT e ++ " " ++ s
   | .block r nullable ps throws =>
     printT r ++ " " ++ (if nullable then "(^ _Nullable)" else "(^ _Nonnull)") ++ "(" ++
-      ", ".intercalate (printTs ps ++ (if throws then ["NSError* _Nullable * _Nonnull"] else [])) ++ ")"
+      joinS ", " (printTs ps ++ (if throws then ["NSError* _Nullable * _Nonnull"] else [])) ++ ")"
   | .handle e => printT e ++ "^"
 def printTs : List TExp → List String
   | [] => []
@@ -72,19 +72,22 @@ deriving DecidableEq, Repr
 
 def wrap1 (w : String) (e : TExp) : TExp := .app (.atom w) [e]
 
+/-- how optional-ness and the kind of the type wrap its expression -/
+def refCppWrap (prim : Prim) (optional : Bool) (e : TExp) : TExp :=
+  match prim with
+  | .interface => wrap1 "std::shared_ptr" e           -- optional or not: a (nullable) shared pointer
+  | .function => e                                      -- `std::function` is already nullable
+  | _ => if optional then wrap1 "std::optional" e else e
+
 mutual
 /-- the type itself, without position wrappers -/
 def refCppCore (c : CppCfg) : RType → TExp
-  | .mk d args optional =>
-    let head : TExp := match d with
-      | .builtin b => .atom (refRow b).cpp
-      | .user u => .atom (cppUserTypename c u)
-      | .func _ _ _ params ret => .fn (refCppCoreO c ret) (refCppCores c params)
-    let e := TExp.app head (refCppCores c args)
-    match d.prim with
-    | .interface => wrap1 "std::shared_ptr" e           -- optional or not: a (nullable) shared pointer
-    | .function => e                                      -- `std::function` is already nullable
-    | _ => if optional then wrap1 "std::optional" e else e
+  | .mk d args optional => refCppWrap d.prim optional (.app (refCppHead c d) (refCppCores c args))
+/-- the head of a type: the reference name of a built-in, the qualified name of a declaration, `std::function<R(P…)>` -/
+def refCppHead (c : CppCfg) : TDef → TExp
+  | .builtin b => .atom (refRow b).cpp
+  | .user u => .atom (cppUserTypename c u)
+  | .func _ _ _ params ret => .fn (refCppCoreO c ret) (refCppCores c params)
 def refCppCores (c : CppCfg) : List RType → List TExp
   | [] => []
   | t :: ts => refCppCore c t :: refCppCores c ts
@@ -95,9 +98,9 @@ end
 
 /-- non-optional interface pointers are wrapped in the configured `not_null` type where the API promises
     non-null (parameters and results, not record fields) -/
-def refCppNotNull (c : CppCfg) (t : RType) (p : Pos) (e : TExp) : TExp :=
+def refCppNotNull (c : CppCfg) (prim : Prim) (optional : Bool) (p : Pos) (e : TExp) : TExp :=
   match c.notNull with
-  | some nn => if p != .field && !nn.isEmpty && t.def'.prim == .interface && !t.optional then wrap1 nn e else e
+  | some nn => if p != .field && !nn.isEmpty && prim == .interface && !optional then wrap1 nn e else e
   | none => e
 
 /-- arithmetic built-ins, enums and flags are value types -/
@@ -108,7 +111,7 @@ def refByValue : TDef → Bool
 
 /-- parameters of non-value types are taken by `const &` -/
 def refCpp (c : CppCfg) (t : RType) (p : Pos) : TExp :=
-  let e := refCppNotNull c t p (refCppCore c t)
+  let e := refCppNotNull c t.def'.prim t.optional p (refCppCore c t)
   if p == .param && !refByValue t.def' then .constRef e else e
 
 /-! ## Java -/
@@ -129,12 +132,13 @@ def plainJs : List JType → List TExp
   | t :: ts => plainJ t :: plainJs ts
 end
 
-/-- the annotation goes in front of the simple name of the (outermost) head type -/
+/-- the annotation goes in front of the simple name of the (outermost) head type; `args` replace the head's own
+    type arguments when the reference has generic arguments -/
 def annotHead (ann : Option String) (args : Option (List TExp)) : JType → TExp
-  | .prim p => .qname [] ann p
+  | .prim p => .app (.qname [] ann p) (args.getD [])
   | .cls pkg name hargs => .app (.qname pkg ann name) (match args with | some a => a | none => plainJs hargs)
-  | .arr (.prim p) => .arr (.qname [] ann p)
-  | .arr e => .arr (plainJ e)
+  | .arr (.prim p) => .app (.arr (.qname [] ann p)) (args.getD [])
+  | .arr e => .app (.arr (plainJ e)) (args.getD [])
 
 /-- head type: built-ins from the reference table (boxed = the wrapper class), flags as `EnumSet<F>`, everything
     else as its own class -/
@@ -178,15 +182,16 @@ def refObjcAnnotation (t : Option RType) (macroStyle : Bool) : String :=
 mutual
 def refObjc (c : ObjcCfg) : RType → (parameter boxed : Bool) → TExp
   | .mk d args optional, parameter, boxed =>
-    let base : TExp := match d with
-      | .builtin b => .atom (if boxed || optional then objcBoxOf (refRow b).objc else (refRow b).objc)
-      | .user u => .atom (objcUserTypename c u)
-      | .func _ _ noexcept params ret => .block (refObjcO c ret) optional (refObjcParams c params) (!noexcept)
     -- an interface-typed parameter is a protocol-qualified `id`, everything else of class type is a pointer
     let isIfaceParam := d.prim == .interface && parameter
+    let base := refObjcBase c d (boxed || optional) optional
     let e := TExp.app (if isIfaceParam then .idOf base else base) (refObjcBoxeds c args)
-    let star := (!isIfaceParam && refObjcPointer d) || boxed || (optional && d.prim != .function)
-    if star then .ptr e else e
+    if (!isIfaceParam && refObjcPointer d) || boxed || (optional && d.prim != .function) then .ptr e else e
+/-- the base name: scalars are boxed (`NSNumber`) in collections and when optional; a function type is a block -/
+def refObjcBase (c : ObjcCfg) : TDef → (boxedOrOptional optional : Bool) → TExp
+  | .builtin b, boxedOrOptional, _ => .atom (if boxedOrOptional then objcBoxOf (refRow b).objc else (refRow b).objc)
+  | .user u, _, _ => .atom (objcUserTypename c u)
+  | .func _ _ noexcept params ret, _, optional => .block (refObjcO c ret) optional (refObjcParams c params) (!noexcept)
 /-- block parameters: parameter position, followed by the nullability macro -/
 def refObjcParams (c : ObjcCfg) : List RType → List TExp
   | [] => []
@@ -210,19 +215,21 @@ def refCliReference : TDef → Bool
 mutual
 def refCli (c : CliCfg) : RType → TExp
   | .mk d args optional =>
-    let head : TExp := match d with
-      | .builtin b => .atom (refRow b).cli
-      | .user u => .atom (cliUserTypename c u)
-      | .func u anonymous _ params ret =>
-        if anonymous then
-          match ret with
-          | some r => .app (.atom "System::Func") (refClis c params ++ [refCli c r])
-          | none => .app (.atom "System::Action") (refClis c params)
-        else .atom (cliUserTypename c u)
     -- value types become `Nullable<T>` when optional; reference types are handles (nullable anyway)
+    let head := refCliHead c d
     let h := if optional && !refCliReference d then wrap1 "System::Nullable" head else head
     let e := TExp.app h (refClis c args)
     if refCliReference d then .handle e else e
+/-- anonymous function types are the generic delegates `System::Func<P…, R>` / `System::Action<P…>` -/
+def refCliHead (c : CliCfg) : TDef → TExp
+  | .builtin b => .atom (refRow b).cli
+  | .user u => .atom (cliUserTypename c u)
+  | .func u anonymous _ params ret =>
+    if anonymous then
+      match ret with
+      | some r => .app (.atom "System::Func") (refClis c params ++ [refCli c r])
+      | none => .app (.atom "System::Action") (refClis c params)
+    else .atom (cliUserTypename c u)
 def refClis (c : CliCfg) : List RType → List TExp
   | [] => []
   | t :: ts => refCli c t :: refClis c ts
